@@ -6,8 +6,8 @@ package drivers
 // result goes to an NDJSON trace that TLC validates against TraceLifecycle.tla.
 
 import (
-	"errors"
 	"encoding/json"
+	"errors"
 	"fmt"
 	"net"
 	"os"
